@@ -614,6 +614,8 @@ def run(rep, ctx):
     with rep.guard("R04.1"):
         r04_1(rep, M, "R04.1")
         merged_region_is_larger(rep, M, "R04.1")
+        from .. import sigs as _sigs
+        _sigs.run(rep, M, "R04.1", scope={q for q in M.reachable([c01.GC]) if q.startswith(("matid.core.", "matid.clustering."))})
         from . import c03 as _c03m
         _c03m.merged_not_kept_twice(rep, M, "R04.1")
     rep.rule("R04.2", "prototype cells are periodic in three directions (3D builder) or exactly (a, b) (2D builder, reduced cells) (shared with C01)")
